@@ -130,6 +130,7 @@ def evJson : Ev → Json
   | .startFlow b => Json.mkObj [("type", "start_flow"), ("flow_body", js b)]
   | .listen => Json.mkObj [("type", "Listen")]
   | .step n => Json.mkObj [("type", "step"), ("n", Json.num (JsonNumber.fromNat n))]
+  | .hidePrevTurn => Json.mkObj [("type", "hide_prev_turn")]
 
 def handle (op : String) (j : Json) : Except String Json := do
   match op with
@@ -147,6 +148,13 @@ def handle (op : String) (j : Json) : Except String Json := do
       ("intent_and_action", Json.mkObj [("user_intent", js ia.userIntent), ("bot_intent", jopt js ia.botIntent), ("bot_action", js ia.botAction)]),
       ("from_nld", jex flowOutJson (flowFromNld p uuid s)),
       ("value_v2", jex js (postValueV2 p lpl s)),
+      -- the wrapper around literal_eval, driven with literal_eval's OBSERVED behaviour ("raised" | "plain" | "nonplain")
+      ("value_v2_wrapper",
+        let lk := (optStr j "lit").getD "raised"
+        let le : Str → Except Unit Lit := fun _ => if lk == "plain" then .ok (.str []) else if lk == "nonplain" then .ok .ellipsis else .error ()
+        let show_ := fun (r : Except GenValueErr Lit) => match r with
+          | .ok _ => "ok" | .error (.invalidLlmResponse _) => "invalid" | .error (.py _) => "py"
+        Json.mkObj [("as_is", Json.str (show_ (generateValueV2 le p lpl s))), ("repaired", Json.str (show_ (generateValueV2R le p lpl s)))]),
       ("user_intent_v2", js (orUnknownIntent (escapeFlowNameU (stripChars [' '] (match (match getFirstNonemptyLine (p.apply s) with
           | some u => if !u.isEmpty && contains [':'] u then (match getFirstUserIntent [u] with | some t => if !t.isEmpty then some t else none | none => none) else some u
           | none => none) with | none => userWasUnclear | some u => u)))))
@@ -156,10 +164,56 @@ def handle (op : String) (j : Json) : Except String Json := do
     let p ← parserOf ((optStr j "parser").getD "none")
     let tbl ← tableOf (← j.getObjVal? "parses")
     pure (evJson (multiStepNextStep tbl p s))
+  | "genloop" =>
+    -- the `generate_events` loop driven by a step TABLE keyed by len(events) - base (the real `_compute_next_steps` is
+    -- replaced by the same table); outcome "raise" or a list of event types
+    let base := nat j "base" 1
+    let outcomeOf : Json → Except String (Except Unit (List Ev)) := fun o =>
+      match o with
+      | .str _ => pure (.error ())
+      | .arr a => do
+        let evs ← a.toList.mapM fun e => do
+          let t ← e.getStr?
+          pure (if t == "Listen" then Ev.listen else if t == "hide_prev_turn" then Ev.hidePrevTurn else Ev.step 0)
+        pure (.ok evs)
+      | _ => throw "bad outcome"
+    let dflt ← outcomeOf (← j.getObjVal? "default")
+    let rows ← (← (← j.getObjVal? "table").getArr?).toList.mapM fun r => do
+      let p ← r.getArr?
+      if h : p.size = 2 then do
+        let k ← p[0].getNat?; let o ← outcomeOf p[1]; pure (k, o)
+      else throw "bad table row"
+    let step : List Ev → Except Unit (List Ev) := fun events =>
+      match lastEv events with
+      | some .hidePrevTurn => .ok [.listen]
+      | _ => match rows.find? (fun r => r.1 == events.length - base) with
+        | some r => r.2
+        | none => dflt
+    let stepR : List Ev → List Ev := fun events => match step events with | .ok l => l | .error _ => internalErrorEvents
+    let init := List.replicate base (Ev.step 1)
+    let tyOf : Ev → String := fun e => match e with
+      | .listen => "Listen" | .hidePrevTurn => "hide_prev_turn" | .botIntent _ => "BotIntent" | _ => "X"
+    let evs := fun (l : List Ev) => Json.arr (l.map fun e => Json.str (tyOf e)).toArray
+    let asIs := match generateEvents step init with
+      | .ok l => Json.mkObj [("res", "ok"), ("events", evs l)]
+      | .error .tooManyEvents => Json.mkObj [("res", "too_many")]
+      | .error (.raised _) => Json.mkObj [("res", "raised")]
+    pure (Json.mkObj [("as_is", asIs), ("repaired", Json.mkObj [("res", "ok"), ("events", evs (genLoopR stepR 102 init []))])])
   | "msflow" =>
     let fid ← str j "flow_id"
     let body ← str j "body"
-    pure (Json.mkObj [("src", js (dynamicFlowSource fid body))])
+    -- the parser's OBSERVED behaviour on the dynamic source: "flows": [ids] when it returned, absent when it raised;
+    -- "next_raised": compute_next_steps raised afterwards
+    let parse : ParseOracle Unit := match j.getObjVal? "flows" with
+      | .ok (.arr a) => fun _ => .ok (a.toList.map fun e => match e.getStr? with | .ok x => x.toList | _ => [])
+      | _ => fun _ => .error ()
+    let nextRaised := match j.getObjVal? "next_raised" with | .ok (.bool b) => b | _ => false
+    let ns : Str → Except Unit (List Ev) := if nextRaised then fun _ => .error () else fun _ => .ok [.step 0]
+    let res : String := match processStartFlowE parse ns fid body with
+      | .error _ => "raised"
+      | .ok [.botIntent _] => "fallback"
+      | .ok _ => "next"
+    pure (Json.mkObj [("src", js (dynamicFlowSource fid body)), ("res", Json.str res)])
   | "all" =>
     let s ← str j "s"
     let p ← parserOf ((optStr j "parser").getD "none")
